@@ -148,4 +148,108 @@ theorem pathClean_of_split (p : Text) (cs tail : List Text) (hsplit : splitOnCha
       simp only [List.cons_append] at hcl
       simp [pathClean, hx, hsplit, hcl, hj]
 
+/-! ## the two shapes of a clean relative path: one component, or `d ++ "/" ++ b` with `d` clean -/
+
+theorem cleanRel_cases (f : Text) (h : cleanRel f = true) :
+    (normalComp f = true ∧ pathDir f = ['.'] ∧ pathBase f = f) ∨
+    (∃ d b, cleanRel d = true ∧ normalComp b = true ∧ f = d ++ '/' :: b ∧ pathDir f = d ∧
+      pathBase f = b) := by
+  obtain ⟨cs, hne, hall, rfl, _⟩ := cleanRel_spec f h
+  rcases List.eq_nil_or_concat cs with rfl | ⟨init, b, hcs⟩
+  · exact absurd rfl hne
+  · rw [List.concat_eq_append] at hcs
+    subst hcs
+    have hb := hall b (by simp)
+    obtain ⟨hb1, hb2, _, _⟩ := (normalComp_spec b).1 hb
+    have hinit : ∀ c ∈ init, normalComp c = true := fun c hc => hall c (by simp [hc])
+    by_cases hi : init = []
+    · subst hi
+      left
+      simp only [List.nil_append, joinWith]
+      exact ⟨hb, pathDir_single b hb2, pathBase_single b hb1 hb2⟩
+    · right
+      have e : joinWith ['/'] (init ++ [b]) = joinWith ['/'] init ++ '/' :: b := by
+        rw [joinWith_snoc _ _ _ hi]; simp
+      refine ⟨joinWith ['/'] init, b, cleanRel_joinWith init hi hinit, hb, e, ?_, ?_⟩
+      · rw [e, pathDir_multi_raw _ _ hb2]
+        apply pathClean_of_split _ init [[]] _ (Or.inr rfl) hi hinit
+        have e2 : joinWith ['/'] init ++ ['/'] = joinWith ['/'] (init ++ [[]]) := by
+          rw [joinWith_snoc _ _ _ hi]; simp
+        rw [e2, splitOnChar_joinWith '/' _ (by simp)]
+        intro a ha
+        rcases List.mem_append.1 ha with ha | ha
+        · exact ((normalComp_spec a).1 (hinit a ha)).2.1
+        · simp at ha; subst ha; simp
+      · rw [e, pathBase_multi _ _ hb1 hb2]
+
+/-! ## the lemmas used by the proofs -/
+
+theorem pathClean_cleanRel (p : Text) (h : cleanRel p = true) : pathClean p = p := by
+  obtain ⟨cs, hne, hall, hp, hs⟩ := cleanRel_spec p h
+  rw [pathClean_of_split p cs [] (by simpa using hs) (Or.inl rfl) hne hall, ← hp]
+
+theorem cleanRel_ne_dot (p : Text) (h : cleanRel p = true) : p ≠ ['.'] := by
+  intro e
+  subst e
+  exact absurd h (by decide)
+
+theorem trimSuffixSlash_cleanRel (p : Text) (h : cleanRel p = true) : trimSuffixSlash p = p := by
+  unfold trimSuffixSlash
+  split
+  · next r hr =>
+    exfalso
+    have hp : p = r.reverse ++ ['/'] := by
+      have := congrArg List.reverse hr
+      simpa using this
+    rcases cleanRel_cases p h with ⟨hn, _, _⟩ | ⟨d, b, _, hb, e, _, _⟩
+    · exact ((normalComp_spec p).1 hn).2.1 (by simp [hp])
+    · obtain ⟨hb1, hb2, _, _⟩ := (normalComp_spec b).1 hb
+      have : p.reverse = b.reverse ++ '/' :: d.reverse := by simp [e]
+      rw [hr] at this
+      cases hbr : b.reverse with
+      | nil => exact hb1 (by simpa using hbr)
+      | cons x xs =>
+        rw [hbr] at this
+        simp only [List.cons_append, List.cons.injEq] at this
+        exact hb2 (by rw [← List.mem_reverse, hbr, ← this.1]; simp)
+  · rfl
+
+theorem pathBase_of_dir_dot (f : Text) (h : cleanRel f = true) (hd : pathDir f = ['.']) :
+    pathBase f = f := by
+  rcases cleanRel_cases f h with ⟨_, _, hb⟩ | ⟨d, b, hcd, _, _, hdir, _⟩
+  · exact hb
+  · rw [hd] at hdir
+    exact absurd hdir.symm (cleanRel_ne_dot d hcd)
+
+theorem sanitizeJoin_dir_base (d f : Text) (hf : cleanRel f = true) (hd : cleanRel d = true)
+    (h : d = pathDir f) : sanitizeJoin d (pathBase f) = f := by
+  rcases cleanRel_cases f hf with ⟨_, hdir, _⟩ | ⟨d', b, _, _, e, hdir, hb⟩
+  · rw [hdir] at h
+    exact absurd h (cleanRel_ne_dot d hd)
+  · rw [hdir] at h
+    subst h
+    have hne : d ≠ [] := by
+      intro e0; subst e0; exact absurd hd (by decide)
+    have hj : pathJoin2 d b = f := by
+      simp only [pathJoin2, hne, ne_eq, not_false_eq_true, if_true]
+      rw [← e, pathClean_cleanRel f hf]
+    unfold sanitizeJoin
+    simp only [hb, hj, pathClean_cleanRel d hd]
+    have : d.isPrefixOf f = true := by rw [e]; simp [List.isPrefixOf_iff_prefix]
+    simp [this]
+
+theorem pathBase_subset (f : Text) (h : cleanRel f = true) : ∀ c ∈ pathBase f, c ∈ f := by
+  rcases cleanRel_cases f h with ⟨_, _, hb⟩ | ⟨d, b, _, _, e, _, hb⟩
+  · rw [hb]; exact fun _ hc => hc
+  · rw [hb, e]; intro c hc; simp [hc]
+
+theorem cleanRel_pathDir (f : Text) (h : cleanRel f = true) (hd : pathDir f ≠ ['.']) :
+    cleanRel (pathDir f) = true := by
+  rcases cleanRel_cases f h with ⟨_, hdir, _⟩ | ⟨d, b, hcd, _, _, hdir, _⟩
+  · exact absurd hdir hd
+  · rw [hdir]; exact hcd
+
+example : cleanRel "usr/lib/libz.so.1".toList = true := by decide
+example : sanitizeJoin "usr/lib".toList (pathBase "usr/lib/libz.so.1".toList) = "usr/lib/libz.so.1".toList := by decide
+
 end Apko.Formats
